@@ -114,7 +114,8 @@ class C16(core.Prop):
     RULE = (
         'batches of 1..24 (quick) / 1..64 (thorough) concurrent requests through the real serving Engine (asyncio gather; real '
         'prediction executors, manager queues, spawned pools of 1-4 forked workers) over 1-3 applications selecting 1-3 model '
-        'instances with distinct states, seeded per-request processing delays (0-30 ms inside the model actor) and arrival '
+        'instances with distinct states, seeded per-request processing delays (0-30 ms inside the model actor; in half of the '
+        'batches one straggler of 300-1200 ms with late arrivals submitted only after an earlier request was answered) and arrival '
         'offsets, a slowed inventory listing to widen the descriptor-lookup window, with unknown-application / '
         'unsupported-encoding / missing- or misnamed-feature / unsupported-accept requests injected at random positions, permuted columns; observed: what every caller received '
         'and the instrumented scheduling trace (submit / take / finish / deliver per executor), which is replayed as a run of '
@@ -129,6 +130,13 @@ class C16(core.Prop):
         mk = lambda app, v, **kw: {'app': app, 'value': v, 'delay': kw.get('delay', 0), 'badenc': kw.get('badenc', False), 'missing': kw.get('missing', False),
                                    'arrival': kw.get('arrival', 0)}
         return [
+            # a request that arrives after another one has been answered while a slow third is still in flight (one and
+            # two workers): task identities must stay unique over the whole life of the executor, not only within a backlog
+            {'apps': [[0, 1]], 'mult': {'1': 7}, 'workers': 1, 'list_delay': 0.0,
+             'requests': [mk(0, 1), mk(0, 2, delay=1200), {**mk(0, 3), 'after': 0}, {**mk(0, 4), 'after': 2}]},
+            {'apps': [[0, 1], [1, 2]], 'mult': {'1': 7, '2': 11}, 'workers': 2, 'list_delay': 0.0,
+             'requests': [mk(0, 1), mk(0, 2, delay=900), mk(1, 3), {**mk(0, 4), 'after': 0}, {**mk(0, 5, delay=300), 'after': 0}, {**mk(0, 6), 'after': 3},
+                          {**mk(1, 7), 'after': 2}]},
             # concurrent first lookups of two different applications while the inventory listing is slow (descriptor cache race)
             {'apps': [[0, 1], [1, 2], [2, 1]], 'mult': {'1': 3, '2': 50}, 'workers': 2, 'list_delay': 0.08,
              'requests': [mk(0, 1), mk(1, 2), mk(2, 3), mk(0, 4, arrival=5), mk(1, 5, arrival=5)]},
@@ -170,6 +178,11 @@ class C16(core.Prop):
                     'badaccept': 0.24 <= fault < 0.30,         # valid payload, but no encoder for what the caller accepts
                     'arrival': rng.choice([0, 0, 0, 1, 3, 10, 20]),
                 })
+            if n >= 3 and rng.random() < 0.5:
+                # late arrivals: one slow request in flight, some requests submitted only after an earlier one was answered
+                reqs[rng.randrange(n)]['delay'] = rng.choice([300, 600, 900])
+                for k in rng.sample(range(1, n), min(n - 1, rng.randint(1, 4))):
+                    reqs[k]['after'] = rng.randrange(k)
             out.append({'apps': apps, 'mult': mult, 'workers': rng.randint(1, 4), 'list_delay': rng.choice([0.0, 0.0, 0.03, 0.08]), 'requests': reqs})
         return out
 
